@@ -6,7 +6,10 @@ import json, os, subprocess, sys, shutil, glob, re
 from concurrent.futures import ThreadPoolExecutor
 V = os.path.dirname(os.path.dirname(os.path.abspath(__file__)))
 ROUND2 = os.environ.get('ROUND2', '0') == '1'
-if ROUND2:     # second round of independent agents M6..M10: ids get the suffixes c, d
+ROUND3 = os.environ.get('ROUND3', '0') == '1'
+if ROUND3:     # third round M11..M15: suffixes e, f (and g for an extra)
+    cands = sorted(glob.glob('/tmp/M1[1-5]_out/C??-?') + glob.glob('/tmp/M1[1-5]_out/C??-extra'))
+elif ROUND2:     # second round of independent agents M6..M10: ids get the suffixes c, d
     cands = sorted(glob.glob('/tmp/M[6-9]_out/C??-?') + glob.glob('/tmp/M10_out/C??-?'))
 else:
     cands = sorted(glob.glob('/tmp/M[1-5]_out/C??-?'))
@@ -14,7 +17,10 @@ else:
 
 def sid_of(c):
     b = os.path.basename(c)
-    if ROUND2:
+    if ROUND3:
+        b = b.replace('-extra', '-g')
+        b = b[:-1] + {'a': 'e', 'b': 'f', 'c': 'g', 'g': 'g'}[b[-1]]
+    elif ROUND2:
         b = b[:-1] + {'a': 'c', 'b': 'd'}[b[-1]]
     return b
 
